@@ -26,7 +26,7 @@ ASSUMPTIONS = ["exact-in-binary64 variants are on the pass/fail path at 1e-9; th
                "T <= 10 with tolerance 1e-6 because CFR amplifies rounding over long runs and no property bounds that amplification",
                "scaling is explored only for parameter sets whose fallback weight is 0 or +-inf (all presets): for a finite non-zero "
                "weight the documented softmax is not scale invariant (theorem C12_scale_softmax_counterexample)"]
-KINDS = ["rescale", "rename", "insert", "remove", "scale", "scale3", "shift", "swap"]
+KINDS = ["rescale", "rescale", "rename", "insert", "remove", "scale", "scale3", "shift", "swap"]
 
 
 def map_tree(t, fterm=None, fchance=None, fplayer=None):
@@ -42,12 +42,25 @@ def map_tree(t, fterm=None, fchance=None, fplayer=None):
 def transform(rng, t, kind):
     """returns (t', info) where info describes how results must relate"""
     if kind == "rescale":
+        flag = {}
+
         def fc(n):
-            if rng.random() < 0.6:
+            r = rng.random()
+            if r < 0.4:
                 k = 2.0 ** rng.randint(-6, 6)
                 n["o"] = [[f2b(b2f(w) * k), c] for w, c in n["o"]]
+            elif r < 0.95 and n.get("c") is None:
+                # far out in the binary64 range (still positive and finite): subnormal weights, and weights whose
+                # sum overflows; only on unshared nodes, because precision is lost down there and a shared
+                # infoset would then legitimately be rejected as unequal
+                k = 2.0 ** rng.choice([-1040, -1035, -1030, -1027, -1030, -1035, -1000, 900, 1010, 1015])
+                ws = [b2f(w) * k for w, _ in n["o"]]
+                if all(w > 0.0 and math.isfinite(w) for w in ws):
+                    n["o"] = [[f2b(w), c] for w, (_, c) in zip(ws, n["o"])]
+                    flag["extreme"] = True
             return n
-        return map_tree(t, fchance=fc), {}
+        t2 = map_tree(t, fchance=fc)
+        return t2, dict(flag)
     if kind == "rename":
         perm = {}
 
@@ -193,7 +206,8 @@ def relate(a, b, meta):
     need = [oa[2], oa[3], oa[4], oa[5], ob[2], ob[3], ob[4], ob[5]]
     if any(not (isinstance(o, dict) and "ok" in o) for o in need):
         return [("%s: an operation failed on one side: %r" % (kind, [o for o in need if not (isinstance(o, dict) and "ok" in o)][:2]), "failure")]
-    tol = 1e-6 if kind in ("scale3", "shift") else 1e-9
+    loose = kind in ("scale3", "shift") or bool(tinfo.get("extreme"))
+    tol = 1e-6 if loose else 1e-9
     c = tinfo.get("c", 1.0)
     k = tinfo.get("k", 0.0)
 
@@ -238,7 +252,7 @@ def relate(a, b, meta):
                 hits.append(("%s: infoset %s of player %d is missing from the transformed solution" % (kind, i, pl + 1), "strategy"))
                 continue
             for a_ in set(row) | set(other):
-                if abs(row.get(a_, 0.0) - other.get(a_, 0.0)) > (1e-5 if kind in ("scale3", "shift") else 1e-8):
+                if abs(row.get(a_, 0.0) - other.get(a_, 0.0)) > (1e-5 if loose else 1e-8):
                     hits.append(("%s (T=%d, %s): strategy of player %d at infoset %s action %s is %r, original %r"
                                  % (kind, meta["T"], meta["preset"], pl + 1, i, a_, other.get(a_, 0.0), row.get(a_, 0.0)), "strategy"))
                     break
@@ -251,7 +265,9 @@ def nontrivial(cb, impl):
 
 
 def classify(cb, impl):
-    return ["kind_" + cb.meta["kind"]] if cb.meta["side"] == "trans" else []
+    if cb.meta["side"] != "trans":
+        return []
+    return ["kind_" + cb.meta["kind"]] + (["rescale_far_out_in_binary64_range"] if cb.meta["tinfo"].get("extreme") else [])
 
 
 def run(out, rng, tier, args):
